@@ -39,6 +39,7 @@ inductive Kind
   | library      -- a library call that draws internally: sklearn k_means/KMeans, scipy.stats.qmc engines, cma
   | entropy      -- os.urandom / secrets.* / uuid.uuid4 / random.SystemRandom
   | seedParam    -- pseudo-site: a function takes a `seed` parameter and never uses it
+  | escape       -- pseudo-site: seed material is stored into a container that may belong to the caller
   | other        -- a call into a random-capable library that the API table does not know
 deriving DecidableEq, Repr
 
@@ -46,6 +47,8 @@ deriving DecidableEq, Repr
 inductive Prov
   | fromSeedParam (path : String)   -- derived from the constructor's `seed`, e.g. `seed.SeedSequence.spawn[0]`
   | ownGenerator (attr : String)    -- a generator attribute (`self._rng`) that itself has seed provenance
+  | callerOwned (path : String)     -- the seed / generator is written into an object the caller may share with
+                                    -- other components (an un-copied dict parameter): they then draw one stream
   | global                          -- NumPy's / Python's process-wide generator
   | fresh                           -- no seed argument / library default: OS entropy
   | constant                        -- literal seed, or a deterministic sequence (`Sobol(scramble=False)`)
@@ -68,7 +71,7 @@ deriving DecidableEq, Repr
 def Site.seeded (s : Site) : Bool :=
   match s.prov with
   | .fromSeedParam _ | .ownGenerator _ | .constant => true
-  | .entropyOnly _ | .global | .fresh | .unclassified => false
+  | .entropyOnly _ | .callerOwned _ | .global | .fresh | .unclassified => false
 
 /-- a call that receives seed material derived from a spawn -/
 structure Consumer where
@@ -106,6 +109,7 @@ deriving DecidableEq, Repr
 def Prov.source : Prov → Source
   | .fromSeedParam _ | .ownGenerator _ | .constant => .own
   | .entropyOnly _ => .own   -- reproducible and non-interfering, but it does not honour the whole seed
+  | .callerOwned _ => .own   -- likewise, but the state it reads may be another component's (not *seeded*)
   | .global => .global
   | .fresh => .entropy
   | .unclassified => .unknown
